@@ -209,9 +209,10 @@ def validate_init(ctx, c01, n):
             reqs.append("rrgen.init " + c01.wire(c)); exp.append(("err", exc_kind(ex)))
             continue
         e = "ok " + " ".join([
-            ol(r._bysetpos), "~" if (nodef and c["freq"] == 0 and c.get("bymonth") is None) else ol(r._bymonth), ol(r._byyearday), ol(r._byeaster),
-            "~" if (nodef and c["freq"] in (0, 1)) else ilist(r._bymonthday) + "/" + ilist(r._bynmonthday), ol(r._byweekno),
-            ol(r._byhour), ol(r._byminute), ol(r._bysecond)])
+            ol(r._bysetpos), ol(r._bymonth), ol(r._byyearday), ol(r._byeaster),
+            ilist(r._bymonthday) + "/" + ilist(r._bynmonthday), ol(r._byweekno),
+            ol(r._byhour), ol(r._byminute), ol(r._bysecond),
+            "-" if r._timeset is None else ilist([x for t in r._timeset for x in (t.hour, t.minute, t.second)])])
         reqs.append("rrgen.init " + c01.wire(c)); exp.append(("ok", e))
     got = ctx.driver(reqs)
     for q, (kind, e), g in zip(reqs, exp, got):
